@@ -11,16 +11,19 @@
      cache.insert   before             schemaPackage.Schemas[name] = ph    -> PInsert
      refto.lookup   in refTo, before the lookup                            -> PRefLookup
      refto.insert   in refTo, before the insert                            -> PRefInsert
-     ref.linked     after  ref.To = ...  of a nested message/enum          -> PLinked
-     cache.linked   after  placeholder.To = ...  in Schema                 -> PReturn
+     ref.linked     after  ref.To = ...  of a nested message/enum          -> PLinked / PFail
+     cache.linked   after  placeholder.To = ...  in Schema                 -> PReturn / PFailRoot
 
    The two-level map (packages, then Package.Schemas) is flattened to one map
    keyed by the full name; referencePackage has no hook of its own, so in forced
    schedules it is atomic with the lookup that follows it.
 
    A type universe is a finite graph: name -> the message/enum types its fields
-   refer to, in field order (an enum is a node without references).  All builds
-   succeed (the universe holds reflectable types only).
+   refer to, in field order (an enum is a node without references).  The reserved
+   name [unsupported] stands for a field whose message type the reflector rejects
+   (e.g. google.protobuf.Struct): the build of a type fails when it reaches such a
+   field, the error propagates through every enclosing build, and Schema takes the
+   refs registered by the failed call out of the map again (SchemaCache.registered).
 
    No proofs in this file. *)
 From Coq Require Import List NArith Bool Arith.
@@ -39,6 +42,9 @@ Fixpoint refs (g : graph) (n : name) : list name :=
   | (m, rs) :: r => if N.eqb m n then rs else refs r n
   end.
 
+(* a field of a type that cannot be reflected; not itself a type one can ask for *)
+Definition unsupported : name := 0%N.
+
 (* ---- shared state: RefSchema cells and the name -> cell map ------------ *)
 (* c_to = None: placeholder, To == nil.  Some fs: linked, fs = the RefSchema
    cells the built schema's ref-typed fields point to, in field order. *)
@@ -46,9 +52,13 @@ Record cell := mkCell { c_name : name; c_to : option (list cellid) }.
 
 (* reg = SchemaCache.registered: the names registered by the Schema call in progress,
    taken out of the map again if that call fails *)
-Record shared := mkShared { heap : list cell; cmap : list (name * cellid); reg : list name }.
+(* failed: the cells whose To a failed build has set to a typed nil pointer
+   (ref.To, err = build(...) with err != nil); the map no longer refers to them once
+   Schema has returned *)
+Record shared := mkShared {
+  heap : list cell; cmap : list (name * cellid); reg : list name; failed : list cellid }.
 
-Definition empty_shared : shared := mkShared [] [] [].
+Definition empty_shared : shared := mkShared [] [] [] [].
 
 Fixpoint lookup (m : list (name * cellid)) (n : name) : option cellid :=
   match m with
@@ -59,7 +69,7 @@ Fixpoint lookup (m : list (name * cellid)) (n : name) : option cellid :=
 (* Schemas[n] = &RefSchema{...}: a new cell; a later binding shadows an earlier one *)
 Definition alloc (sh : shared) (n : name) : shared * cellid :=
   let c := length (heap sh) in
-  (mkShared (heap sh ++ [mkCell n None]) ((n, c) :: cmap sh) (reg sh ++ [n]), c).
+  (mkShared (heap sh ++ [mkCell n None]) ((n, c) :: cmap sh) (reg sh ++ [n]) (failed sh), c).
 
 Fixpoint set_nth {A} (l : list A) (i : nat) (x : A) : list A :=
   match l, i with
@@ -71,12 +81,16 @@ Fixpoint set_nth {A} (l : list A) (i : nat) (x : A) : list A :=
 (* ref.To = built *)
 Definition set_to (sh : shared) (c : cellid) (fs : list cellid) : shared :=
   match nth_error (heap sh) c with
-  | Some cl => mkShared (set_nth (heap sh) c (mkCell (c_name cl) (Some fs))) (cmap sh) (reg sh)
+  | Some cl => mkShared (set_nth (heap sh) c (mkCell (c_name cl) (Some fs))) (cmap sh) (reg sh) (failed sh)
   | None => sh
   end.
 
 (* sc.registered = sc.registered[:0] on entry, = nil on return *)
-Definition reset_reg (sh : shared) : shared := mkShared (heap sh) (cmap sh) [].
+Definition reset_reg (sh : shared) : shared := mkShared (heap sh) (cmap sh) [] (failed sh).
+
+(* ref.To = a typed nil pointer: the build of cell c failed *)
+Definition fail_to (sh : shared) (c : cellid) : shared :=
+  mkShared (heap sh) (cmap sh) (reg sh) (c :: failed sh).
 
 (* delete(ref.Package.Schemas, ref.Schema) *)
 Definition remove_key (m : list (name * cellid)) (n : name) : list (name * cellid) :=
@@ -84,7 +98,7 @@ Definition remove_key (m : list (name * cellid)) (n : name) : list (name * celli
 
 (* a failed call takes out of the map whatever is registered, then forgets the list *)
 Definition rollback (sh : shared) : shared :=
-  mkShared (heap sh) (fold_left remove_key (reg sh) (cmap sh)) [].
+  mkShared (heap sh) (fold_left remove_key (reg sh) (cmap sh)) [] (failed sh).
 
 Definition cell_to (sh : shared) (c : cellid) : option (list cellid) :=
   match nth_error (heap sh) c with
@@ -123,7 +137,8 @@ Fixpoint gunfold (k : nat) (g : graph) (n : name) : utree :=
   end.
 
 Inductive result :=
-| RErr                     (* "unlinked ref": lookup found a placeholder with To == nil *)
+| RErr                     (* an error: the build failed, or ("unlinked ref") the lookup found a
+                              placeholder with To == nil *)
 | ROk (t : utree).
 
 (* the end of Schema: on an error the registered refs are deleted; registered = nil *)
@@ -132,8 +147,6 @@ Definition finish_shared (res : result) (sh : shared) : shared :=
   | RErr => rollback sh
   | ROk _ => reset_reg sh
   end.
-
-Definition result_solo (k : nat) (g : graph) (n : name) : result := ROk (gunfold k g n).
 
 (* ---- thread-local continuation ---------------------------------------- *)
 (* one frame per schema being built: the cell to link, the references still to
@@ -148,19 +161,25 @@ Inductive pc :=
 | PRefLookup (stk : list frame)   (* refTo for the head of the top frame's todo *)
 | PRefInsert (stk : list frame)
 | PLinked (stk : list frame)      (* a nested schema was linked; stk = the frames above it *)
-| PReturn (c : cellid).           (* the root placeholder c was linked *)
+| PReturn (c : cellid)            (* the root placeholder c was linked *)
+| PFail (stk : list frame)        (* a nested build failed; stk = the frames above it, which fail in turn *)
+| PFailRoot.                      (* the build of the root failed *)
 
 (* t_calls: the calls still to make, the current one first; t_results: reversed *)
 Record thread := mkThread { t_pc : pc; t_calls : list name; t_results : list result }.
 
-(* run the builder up to its next hook point: the top frame either has a
-   reference left (-> refto.lookup), or it is complete: link its cell, pop *)
+(* run the builder up to its next hook point: the top frame has a reference left
+   (-> refto.lookup), or its next field is of an unsupported type (the build fails: its
+   cell gets a typed nil, pop), or it is complete (link its cell, pop) *)
 Definition advance (sh : shared) (stk : list frame) : shared * pc :=
   match stk with
   | [] => (sh, PEnter)
   | f :: rest =>
       match f_todo f with
-      | _ :: _ => (sh, PRefLookup stk)
+      | m :: _ =>
+          if N.eqb m unsupported then
+            (fail_to sh (f_cell f), match rest with [] => PFailRoot | _ :: _ => PFail rest end)
+          else (sh, PRefLookup stk)
       | [] =>
           let sh' := set_to sh (f_cell f) (rev (f_done f)) in
           match rest with
@@ -209,6 +228,10 @@ Definition lstep (k : nat) (g : graph) (n : name) (sh : shared) (p : pc) : share
   | PLinked stk =>
       let (sh2, p') := advance sh stk in (sh2, inl p')
   | PReturn c => (sh, inr (ROk (unfold k (heap sh) c)))
+  | PFail (f :: rest) =>
+      (* the enclosing build returns the error: its cell gets a typed nil too *)
+      (fail_to sh (f_cell f), inl (match rest with [] => PFailRoot | _ :: _ => PFail rest end))
+  | PFailRoot => (sh, inr RErr)
   | _ => (sh, inl p)
   end.
 
@@ -302,6 +325,7 @@ Definition pc_label (th : thread) : N :=
       match t_pc th with
       | PEnter => 0 | PWait => 1 | PLookup => 2 | PInsert => 3
       | PRefLookup _ => 4 | PRefInsert _ => 5 | PLinked _ => 6 | PReturn _ => 7
+      | PFail _ => 6 | PFailRoot => 7
       end%N
   end.
 
@@ -342,6 +366,33 @@ Definition gnames (g : graph) : list name := flat_map (fun e => fst e :: snd e) 
 Definition universe (g : graph) (calls : list (list name)) : list name :=
   nodup N.eq_dec (concat calls ++ gnames g).
 
-(* the number of fair rounds that suffices: every type of the universe registered once, three steps per call *)
+(* the cost of registering the whole universe once *)
+Definition universe_cost (g : graph) (calls : list (list name)) : nat :=
+  list_sum (map (node_cost g) (universe g calls)).
+
+(* the number of fair rounds that suffices: a failed call may have registered (and then
+   taken out again) the whole universe, so every call is charged for it *)
 Definition fuel_bound (g : graph) (calls : list (list name)) : nat :=
-  list_sum (map (node_cost g) (universe g calls)) + 3 * length (concat calls).
+  universe_cost g calls + (3 + universe_cost g calls) * length (concat calls).
+
+(* ---- what a call returns when it is run alone on a fresh cache --------------------- *)
+Definition result_solo (k : nat) (g : graph) (n : name) : result :=
+  match results (run Guarded k g [[n]] (repeat 0 (fuel_bound g [[n]]))) with
+  | [r] :: _ => r
+  | _ => RErr
+  end.
+
+(* the same, characterised by the type universe: m is reachable from n through fields *)
+Inductive reach (g : graph) (n : name) : name -> Prop :=
+| reach_refl : reach g n n
+| reach_step : forall m m', reach g n m -> In m' (refs g m) -> reach g n m'.
+
+(* n is reflectable: no type reachable from it has a field of an unsupported type *)
+Definition good (g : graph) (n : name) : Prop := ~ reach g n unsupported.
+
+Definition char (k : nat) (g : graph) (n : name) (res : result) : Prop :=
+  (res = ROk (gunfold k g n) /\ good g n) \/ (res = RErr /\ ~ good g n).
+
+(* the calls are on types, not on the marker *)
+Definition calls_ok (calls : list (list name)) : Prop :=
+  forall t n, In n (nth t calls []) -> n <> unsupported.
